@@ -8,21 +8,21 @@ theorem strengthKey_eq (cfg : Cfg) (h : Nat) (hv : ValidHand cfg h) :
     strengthKey cfg h = keyA cfg (evalA cfg (α h)) := by
   simp only [strengthKey, strength, handOf, hv.1, keyA]
 
-theorem order_hands_abs (cfg : Cfg) (h1 h2 : Nat) (v1 : ValidHand cfg h1) (v2 : ValidHand cfg h2) :
+theorem order_hands_abs_of {cfg : Cfg} (T : TableOK cfg) (h1 h2 : Nat) (v1 : ValidHand cfg h1) (v2 : ValidHand cfg h2) :
     compareHands cfg h1 h2 = compare (specA cfg (α h1)) (specA cfg (α h2)) := by
   simp only [compareHands, strengthKey_eq cfg h1 v1, strengthKey_eq cfg h2 v2]
-  exact order_cls cfg _ _ (valid_alpha cfg h1 v1) (valid_alpha cfg h2 v2)
+  exact order_cls_of T _ _ (valid_alpha cfg h1 v1) (valid_alpha cfg h2 v2)
 
-theorem strength_total (cfg : Cfg) (h : Nat) (hv : ValidHand cfg h) : (strength? cfg h).isSome = true := by
-  have := (table_cls cfg (α h) (valid_alpha cfg h hv)).1
+theorem strength_total_of {cfg : Cfg} (T : TableOK cfg) (h : Nat) (hv : ValidHand cfg h) : (strength? cfg h).isSome = true := by
+  have := (table_cls_of T (α h) (valid_alpha cfg h hv)).1
   simp only [strength?, handOf, hv.1, Option.isSome_map]
   exact this
 
 /-- with a flush suit among ≤ 7 cards, the other finders would find neither quads nor a full house -/
-theorem flush_excludes (cfg : Cfg) (h F : Nat) (hv : ValidHand cfg h) (hF : (α h).fl = some F) :
+theorem flush_excludes_of {cfg : Cfg} (T : TableOK cfg) (h F : Nat) (hv : ValidHand cfg h) (hF : (α h).fl = some F) :
     (evalA cfg (clsN (α h).cv)).1.cat ≠ cFourOAK ∧ (evalA cfg (clsN (α h).cv)).1.cat ≠ cFullHouse := by
   have hc := valid_alpha cfg h hv
-  have hN := rowN_of_valid cfg (α h).cv hc.cv hc.lo hc.hi
+  have hN := rowN_of_valid_of T (α h).cv hc.cv hc.lo hc.hi
   simp only [rowN, Bool.and_eq_true, beq_iff_eq, Bool.or_eq_true, decide_eq_true_eq] at hN
   obtain ⟨⟨⟨n1, n2⟩, n3⟩, n5⟩ := hN
   obtain ⟨_, _, _, f4⟩ := hc.fl F hF
